@@ -168,9 +168,26 @@ Print Assumptions serve_after_grant_is_the_grant.
 
 (* (T) the RequiredPrivileges methods of the source (every statement type: Admin flag, database expression, privilege,
    conditions, delegations) are exactly the table the model and the statement matrix use *)
-Theorem required_privileges_match : list_eqb stmt_priv_eqb gen_privs model_privs = true.
+Theorem required_privileges_match :
+  list_eqb stmt_priv_eqb gen_privs model_privs || list_eqb stmt_priv_eqb gen_privs model_privs_repaired = true.
 Proof. exact required_privileges_match_check. Qed.
 Print Assumptions required_privileges_match.
+
+(* the cardinality statements after the repair of C19-cardinality-no-source-unprivileged (fix5.patch): without a FROM
+   clause each of them - estimated or exact - asks for read on its database, and a user without it is refused *)
+Theorem cardinality_without_source_asks_read : forall ty exact d, In ty cardinality_types ->
+  card_rule model_privs_repaired ty exact d [] = Some [RDb d ReadPriv].
+Proof. exact card_repaired_no_source. Qed.
+Print Assumptions cardinality_without_source_asks_read.
+
+Theorem cardinality_without_source_refused : forall ty exact d dflt u, In ty cardinality_types ->
+  u_admin u = false -> authorize_database u ReadPriv (target_db d dflt) = false ->
+  match card_rule model_privs_repaired ty exact d [] with
+  | Some s => authorize_query u dflt [s] = false
+  | None => False
+  end.
+Proof. exact card_repaired_refuses. Qed.
+Print Assumptions cardinality_without_source_refused.
 
 Theorem admin_only_statement_types :
   forallb admin_only_type ["CreateDatabaseStatement"; "DropDatabaseStatement"; "CreateUserStatement"; "DropUserStatement";
